@@ -6,6 +6,7 @@ import (
 	"errors"
 	"fmt"
 	"io"
+	"reflect"
 	"strings"
 	"sync"
 	"sync/atomic"
@@ -169,6 +170,19 @@ func init() {
 			// an HTTP batch in which a notification (and a call) panic next to healthy calls
 			ps = append(ps, Param{Name: "http-batch-string", Bound: 0, V: map[string]int{"ws": 0}, S: map[string]string{"kind": "batch", "payload": "string"}})
 			ps = append(ps, Param{Name: "http-batch-nilerr", Bound: 0, V: map[string]int{"ws": 0}, S: map[string]string{"kind": "batch", "payload": "nilerr"}})
+			// two calls panicking at the same time with different payloads: each caller gets its own panic
+			tb := 1
+			if tier == "thorough" {
+				tb = 2
+			}
+			ps = append(ps, Param{Name: "ws-twin", Bound: tb, V: map[string]int{"ws": 1}, S: map[string]string{"kind": "twin", "payload": "string"}})
+			ps = append(ps, Param{Name: "http-twin", Bound: tb, V: map[string]int{"ws": 0}, S: map[string]string{"kind": "twin", "payload": "string"}})
+			// the same with the server's tracer option set (the tracer sees every call, panicking or not)
+			for _, k := range []string{"unary", "notify", "chan", "twin"} {
+				ps = append(ps, Param{Name: "ws-" + k + "-string-tracer", Bound: 1, V: map[string]int{"ws": 1, "tracer": 1}, S: map[string]string{"kind": k, "payload": "string"}})
+			}
+			ps = append(ps, Param{Name: "http-unary-string-tracer", Bound: 0, V: map[string]int{"ws": 0, "tracer": 1}, S: map[string]string{"kind": "unary", "payload": "string"}})
+			ps = append(ps, Param{Name: "http-batch-string-tracer", Bound: 0, V: map[string]int{"ws": 0, "tracer": 1}, S: map[string]string{"kind": "batch", "payload": "string"}})
 			return ps
 		},
 		Body: panicBody,
@@ -178,7 +192,14 @@ func init() {
 func panicBody(s *vsched.Sched, p Param) {
 	kind, payload := p.Str("kind"), p.Str("payload")
 	ws := p.I("ws") == 1
-	w := NewWorld(s, jsonrpc.WithServerPingInterval(0), jsonrpc.WithReverseClient[PanicRevCli]("R"))
+	sopts := []jsonrpc.ServerOption{jsonrpc.WithServerPingInterval(0), jsonrpc.WithReverseClient[PanicRevCli]("R")}
+	var traced atomic.Int32
+	if p.I("tracer") == 1 {
+		sopts = append(sopts, jsonrpc.WithTracer(func(method string, params []reflect.Value, results []reflect.Value, err error) {
+			traced.Add(1)
+		}))
+	}
+	w := NewWorld(s, sopts...)
 	srv := &PanicSrv{s: s}
 	w.RPC.Register("T", srv)
 	w.Serve()
@@ -217,6 +238,14 @@ func panicBody(s *vsched.Sched, p Param) {
 			for _, k := range []string{"ret-boom", "ret-again"} {
 				if v, _ := obs.Get(k); v != "panic-confined: 70=70 71=panic-error 72=72" {
 					s.Violate("C13: HTTP batch with a panicking notification and a panicking call: want results for 70 and 72 and a panic error for 71, got %q", v)
+				}
+			}
+		} else if kind == "twin" {
+			for k, want := range map[string]string{"ret-boom": "boom-string", "ret-boom2": "boom-error"} {
+				if v, ok := obs.Get(k); !ok {
+					s.Violate("C13: one of two concurrently panicking calls never returned (%s); alive: %s", k, strings.Join(s.Alive(), " "))
+				} else if !strings.Contains(v, want) || !strings.Contains(strings.ToLower(v), "panic") {
+					s.Violate("C13: of two concurrently panicking calls, %s did not receive an error mentioning its own panic (%s): %s", k, want, v)
 				}
 			}
 		} else if kind != "notify" {
@@ -304,6 +333,12 @@ func panicBody(s *vsched.Sched, p Param) {
 		}
 	}
 	s.Begin()
+	if kind == "twin" {
+		s.Go("c-boom2", func() {
+			v, err := cli.Boom(context.Background(), "error")
+			obs.Set("ret-boom2", "%d/%v", v, err)
+		})
+	}
 	s.Go("c-healthy", func() {
 		v, err := cli.Echo(context.Background(), 1)
 		obs.Set("ret-H", "%d/%v", v, err)
